@@ -13,12 +13,12 @@ use crate::m5;
 
 fn pair_counts(tier: Tier) -> Vec<usize> {
     match tier {
-        Tier::Quick => vec![0, 1, 2, 3, 4, 31, 32, 33, 63, 64, 126, 127],
+        Tier::Quick => vec![0, 1, 2, 3, 31, 32, 64, 127],
         Tier::Thorough => (0..=127).collect(),
     }
 }
 
-fn input_pairs(p: usize, seed: u64) -> Vec<(Fe, Fe)> {
+fn input_pairs(p: usize, seed: u64, full: bool) -> Vec<(Fe, Fe)> {
     let w = 2 * p;
     let mut rho = Rho::new(seed, 1300 + p as u64);
     let (r1, r2, r3) = (rho.next_fe(), rho.next_fe(), rho.next_fe());
@@ -26,15 +26,18 @@ fn input_pairs(p: usize, seed: u64) -> Vec<(Fe, Fe)> {
     // small x so that the alias x + r still fits 255 bits
     let gap = U320::pow2(255).sub(&U320::modulus());
     let small = gap.sub(&U320::from_u64(12345)).to_fe();
-    vec![
+    let mut v = vec![
         (zero(), zero()),
         (ones, ones),
         (neg1(), r1),
-        (r2, r3),
         (m5::low_bits(&r2, w.min(250)), m5::low_bits(&r2, w.min(250)) + pow2(w)),
-        (ones, pow2(w)),
         (small, fe(0x5555_5555_5555_5555)),
-    ]
+    ];
+    if full {
+        v.push((r2, r3));
+        v.push((ones, pow2(w)));
+    }
+    v
 }
 
 fn gadget(xor: bool, p: usize, a: Fe, b: Fe) -> Gadget {
@@ -124,7 +127,7 @@ pub fn cases(tier: Tier) -> Vec<GCase> {
     let seed = seed();
     let mut out = vec![];
     for p in pair_counts(tier) {
-        for (a, b) in input_pairs(p, seed) {
+        for (a, b) in input_pairs(p, seed, tier == Tier::Thorough) {
             for xor in [false, true] {
                 let g = gadget(xor, p, a, b);
                 let spec = m5::logic(&a, &b, 2 * p, xor);
